@@ -662,6 +662,21 @@ func minimise(bin string, mode *Mode, sc *Scenario, v Violation, budget time.Dur
 
 // ---------------------------------------------------------------- evidence
 
+// totalFaults: injected faults of all kinds that actually fired (clock
+// anomalies are listed separately under faults_fired and not counted here).
+func totalFaults(counted int, fired map[string]int) int {
+	n := 0
+	for k, v := range fired {
+		if !strings.HasPrefix(k, "clock_") {
+			n += v
+		}
+	}
+	if counted > n {
+		return counted
+	}
+	return n
+}
+
 func writeEvidence(plan *PropPlan, tier string, seed uint64, a *agg, wall float64, nviol int, vioSamples []any) {
 	faultFired := map[string]int{}
 	probes := map[string]int{}
@@ -705,7 +720,7 @@ func writeEvidence(plan *PropPlan, tier string, seed uint64, a *agg, wall float6
 		"mutations_in_effect":               a.effects,
 		"simulated_time_s":                  float64(a.simNs) / 1e9,
 		"faults_fired":                      faultFired,
-		"faults_fired_total":                a.faults,
+		"faults_fired_total":                totalFaults(a.faults, faultFired),
 		"scheduler":                         sched,
 		"distinct_interleavings":            len(a.ilv),
 		"distinct_model_states":             len(a.states),
